@@ -81,7 +81,7 @@ Proof. exact handle_error_unchanged. Qed.
 Print Assumptions C01_failed_requests_change_nothing.
 
 Theorem C01_observers_pure : forall cfg pol u s r,
-  match r with RGet _ | RPropfind _ _ | RMultiget _ _ _ => True | _ => False end ->
+  match r with RGet _ | RPropfind _ _ | RMultiget _ _ _ | RQuery _ _ _ => True | _ => False end ->
   fst (handle cfg pol u s r) = ensure_home pol s u.
 Proof. exact observers_pure. Qed.
 Print Assumptions C01_observers_pure.
@@ -350,10 +350,11 @@ Theorem C01_outcome_codes_sound :
   /\ (forall cfg pol s p ct b im inm, In (code_of (fst (snd (do_put cfg pol s p ct b im inm)))) put_codes)
   /\ (forall pol s p, In (code_of (fst (do_get pol s p))) get_codes)
   /\ (forall pol s p d, In (code_of (fst (do_propfind pol s p d))) propfind_codes)
-  /\ (forall pol s p cal hs, In (code_of (fst (do_multiget pol s p cal hs))) multiget_codes).
+  /\ (forall pol s p cal hs, In (code_of (fst (do_multiget pol s p cal hs))) multiget_codes)
+  /\ (forall pol s p k flt, In (code_of (fst (do_query pol s p k flt))) query_codes).
 Proof.
   exact (conj delete_codes_sound (conj mkcol_codes_sound (conj mkcalendar_codes_sound (conj move_codes_sound
-        (conj proppatch_codes_sound (conj put_codes_sound (conj get_codes_sound (conj propfind_codes_sound multiget_codes_sound)))))))).
+        (conj proppatch_codes_sound (conj put_codes_sound (conj get_codes_sound (conj propfind_codes_sound (conj multiget_codes_sound query_codes_sound))))))))).
 Qed.
 Print Assumptions C01_outcome_codes_sound.
 
@@ -364,7 +365,7 @@ Theorem C01_outcome_codes_tied :
   /\ tied RV.Gen.Skeleton.sk_do_MKCALENDAR mkcalendar_codes = true /\ tied RV.Gen.Skeleton.sk_do_MOVE move_codes = true
   /\ tied RV.Gen.Skeleton.sk_do_PROPPATCH proppatch_codes = true /\ tied RV.Gen.Skeleton.sk_do_PUT put_codes = true
   /\ tied RV.Gen.Skeleton.sk_do_GET get_codes = true /\ tied RV.Gen.Skeleton.sk_do_PROPFIND propfind_codes = true
-  /\ tied RV.Gen.Skeleton.sk_do_REPORT multiget_codes = true.
+  /\ tied RV.Gen.Skeleton.sk_do_REPORT multiget_codes = true /\ tied RV.Gen.Skeleton.sk_do_REPORT query_codes = true.
 Proof. exact codes_tied_to_code. Qed.
 Print Assumptions C01_outcome_codes_tied.
 
